@@ -68,8 +68,12 @@ pub fn run(ctx: &mut Ctx) {
     match prop.as_str() {
         "C02" | "C03" | "C04" => {
             let b = ctx.budget_s;
-            ctx.budget_s = b * 0.5;
+            ctx.budget_s = b * 0.4;
             lane_trees(ctx);
+            if ctx.prop == "C03" {
+                ctx.budget_s = b * 0.7;
+                lane_deep(ctx);
+            }
             ctx.budget_s = b;
             lane_history(ctx);
         }
@@ -423,5 +427,114 @@ fn lane_trees(ctx: &mut Ctx) {
     if ctx.only_case.is_none() {
         ctx.cov.exhaustive = Some(complete);
         ctx.cov.add("exhaustive_tree_family_size", if ctx.shard == 0 { total } else { 0 });
+    }
+}
+
+/// C03 on testnet/regtest: chains long enough to reach the adaptive depth bound, with an anchor so
+/// heavy that the difficulty rule cannot fire, and a competing branch at various distances.
+fn lane_deep(ctx: &mut Ctx) {
+    let max_cases = if ctx.tier == Tier::Quick { 16 } else { 100_000 };
+    for k in ctx.cases("deep", max_cases) {
+        if !ctx.time_left() {
+            break;
+        }
+        ctx.begin("deep", k);
+        let mut rng = Rng::derive(&[ctx.seed, fp_str("deep"), k]);
+        let quick = ctx.tier == Tier::Quick;
+        let (net, path) = if k % 2 == 0 { (Network::Regtest, Path::Insert) } else { (Network::Testnet, Path::Push) };
+        let threshold: u32 = *rng.pick(&[1u32, 2, 6, 30, 144, 400, 499, 500, 700]);
+        let cfg = HistCfg {
+            net,
+            path,
+            threshold,
+            n_each: 1,
+            max_txs: 0,
+            fork_pct: 0,
+            palette: Palette::One,
+            fanout_pct: 0,
+            share_pct: 0,
+            lazy_fees: true,
+            sync_gate: false,
+            ingest_pct: 100,
+            fee_txs: false,
+        };
+        let mut h = Hist::new(cfg, rng);
+        h.report_c03 = true;
+        // a very heavy first block becomes the anchor at once (its weight alone exceeds threshold x 1)
+        let g = h.model.anchor;
+        let heavy: u128 = 1_000_000_000_000;
+        let b = h.gen_block(&g);
+        let Some(b1) = h.deliver(b, heavy, ctx) else { continue };
+        if !h.opportunity(ctx) {
+            continue;
+        }
+        if h.model.anchor != b1 {
+            ctx.inconclusive("heavy block did not become the anchor".into());
+            continue;
+        }
+        // competitor branch of length c hanging off the anchor
+        let c: u64 = *h.rng.pick(&[0u64, 1, 2, 10, 60, 200]);
+        let c = if quick { c.min(10) } else { c };
+        let mut comp_tip = b1;
+        let mut main_tip = b1;
+        let mut comp_len = 0u64;
+        let limit: u64 = if quick { 420 } else { *h.rng.pick(&[420u64, 700, 1600]) };
+        let mut advanced_at: Option<u64> = None;
+        let mut max_depth = 0u64;
+        for i in 0..limit {
+            if !ctx.time_left() {
+                ctx.cov.count("deep_cases_cut_by_the_time_budget");
+                break;
+            }
+            // interleave: competitor grows first (up to c), sometimes later again
+            let grow_comp = comp_len < c && (i < c || h.rng.chance(1, 50));
+            if grow_comp {
+                let bl = h.gen_block(&comp_tip);
+                match h.deliver(bl, 1, ctx) {
+                    Some(x) => {
+                        comp_tip = x;
+                        comp_len += 1;
+                    }
+                    None => break,
+                }
+            } else {
+                let bl = h.gen_block(&main_tip);
+                match h.deliver(bl, 1, ctx) {
+                    Some(x) => main_tip = x,
+                    None => break,
+                }
+            }
+            let before = h.model.stable_height();
+            if !h.opportunity(ctx) {
+                break;
+            }
+            max_depth = max_depth.max(h.model.depth(&h.model.anchor));
+            if h.model.stable_height() > before && advanced_at.is_none() {
+                advanced_at = Some(i);
+                ctx.cov.count("c03_depth_escape_advances_observed");
+                // a few more steps, then stop
+                if quick {
+                    break;
+                }
+            }
+            if !h.model.is_live(&comp_tip) {
+                comp_tip = h.model.anchor;
+                comp_len = u64::MAX / 2;
+            }
+            if !h.model.is_live(&main_tip) {
+                break;
+            }
+        }
+        ctx.cov.max("max_unstable_depth_reached", max_depth);
+        ctx.cov.count(&format!("deep_threshold_{}", threshold));
+        if ctx.cov.samples.len() < 3 {
+            ctx.cov.sample(serde_json::json!({"net": crate::gen::net_name(net), "threshold": threshold, "competitor_blocks": c,
+                "anchor_advanced_after_blocks": advanced_at, "max_unstable_depth": max_depth}));
+        }
+        if let Some(d) = &h.desync {
+            if ctx.cov.violations.iter().all(|v| v.case != k || v.lane != "deep") {
+                ctx.inconclusive(format!("deep chain abandoned: {}", d));
+            }
+        }
     }
 }
